@@ -571,12 +571,31 @@ func openSQL(clk clock.Clock) (invpkg.InvoiceDB, func(), error) {
 // pointDB wraps an InvoiceDB: every call the registry makes is a scheduling point of
 // the cooperative scheduler (a no-op for goroutines that are not scheduler threads, i.e.
 // in the sequential exploration and for lnd's own goroutines) and is counted.
+//
+// The one registry activity that touches the store WITHOUT the registry lock is the
+// set-timeout cancellation issued by the registry's event loop (cancelSingleHtlc). For the
+// interleaving part the gate makes that UpdateInvoice call a schedulable step as well: the
+// controller fires the timer at the chosen schedule point while every link thread is
+// parked, and the gate reports when the event loop's (atomic) store transaction has
+// completed and whether its callback produced an update.
 type pointDB struct {
 	invpkg.InvoiceDB
 	calls *dbCalls
+	gate  *txGate
 }
 
 type dbCalls struct{ add, lookup, update atomic.Int64 }
+
+// txGate intercepts the next UpdateInvoice call made by a goroutine that is not a
+// scheduler thread.
+type txGate struct {
+	mode atomic.Int32 // 0 off, 2 report the completion of the next such call
+	done chan bool
+}
+
+func newTxGate() *txGate {
+	return &txGate{done: make(chan bool, 1)}
+}
 
 func (d *pointDB) AddInvoice(ctx context.Context, i *invpkg.Invoice, h lntypes.Hash) (uint64, error) {
 	vsched.Yield("db.AddInvoice")
@@ -593,8 +612,20 @@ func (d *pointDB) LookupInvoice(ctx context.Context, ref invpkg.InvoiceRef) (inv
 func (d *pointDB) UpdateInvoice(ctx context.Context, ref invpkg.InvoiceRef, setID *invpkg.SetID,
 	cb invpkg.InvoiceUpdateCallback) (*invpkg.Invoice, error) {
 
-	vsched.Yield("db.UpdateInvoice")
 	d.calls.update.Add(1)
+	if g := d.gate; g != nil && g.mode.Load() != 0 && vsched.Current() == nil {
+		if m := g.mode.Swap(0); m != 0 {
+			updated := false
+			inv, err := d.InvoiceDB.UpdateInvoice(ctx, ref, setID, func(i *invpkg.Invoice) (*invpkg.InvoiceUpdateDesc, error) {
+				desc, err := cb(i)
+				updated = desc != nil && err == nil
+				return desc, err
+			})
+			g.done <- updated && err == nil
+			return inv, err
+		}
+	}
+	vsched.Yield("db.UpdateInvoice")
 	return d.InvoiceDB.UpdateInvoice(ctx, ref, setID, cb)
 }
 
@@ -782,13 +813,14 @@ type side struct {
 	hodl   chan interface{}
 	calls  dbCalls
 	closer func()
+	gate   *txGate
 	// verdict history per circuit key: 0 none, 1 held, 2 settle ordered, 3 cancel ordered
 	hist    map[int]int
 	stalled string
 }
 
 func newSide(name string, k Kind) (*side, error) {
-	s := &side{name: name, kind: k, hodl: make(chan interface{}, 256), hist: map[int]int{}}
+	s := &side{name: name, kind: k, hodl: make(chan interface{}, 256), hist: map[int]int{}, gate: newTxGate()}
 	s.dbClk = clock.NewTestClock(startTime)
 	s.clk = newVclock(startTime)
 	var err error
@@ -814,7 +846,7 @@ func newSide(name string, k Kind) (*side, error) {
 		AcceptAMP:            k.JIT == "amp",
 		HtlcInterceptor:      passInterceptor{},
 	}
-	s.reg = invpkg.NewRegistry(&pointDB{InvoiceDB: s.raw, calls: &s.calls}, watcher, cfg)
+	s.reg = invpkg.NewRegistry(&pointDB{InvoiceDB: s.raw, calls: &s.calls, gate: s.gate}, watcher, cfg)
 	if err := s.reg.Start(); err != nil {
 		s.closer()
 		return nil, fmt.Errorf("registry start (%s): %w", name, err)
@@ -948,6 +980,21 @@ func (s *side) timeout(pre invObs) []Verdict {
 		}
 	}
 	return append(out, s.drain()...)
+}
+
+// awaitHodl waits for the next resolution on the hodl channel (completion signal).
+func (s *side) awaitHodl() (Verdict, bool) {
+	guard := time.NewTimer(stallGuard)
+	defer guard.Stop()
+	select {
+	case m := <-s.hodl:
+		if r, ok := m.(invpkg.HtlcResolution); ok {
+			return verdictOf(r, nil, 0), true
+		}
+		return Verdict{Kind: "error", Outcome: fmt.Sprintf("hodl channel carried %T", m)}, true
+	case <-guard.C:
+		return Verdict{}, false
+	}
 }
 
 func firstLine(s string) string {
